@@ -12,7 +12,7 @@ import ticc_util as tu
 from common import show_list, frac_str
 
 LEVEL = "other"
-LEAN_PROPS = ["FastTicc.Props.C02", "FastTicc.Props.Compose", "FastTicc.Props.C03", "FastTicc.Props.C11", "FastTicc.Props.C18", "FastTicc.Props.C02matrix", "FastTicc.Props.C02opt", "FastTicc.Props.AdmmSolve"]
+LEAN_PROPS = ["FastTicc.Props.C02", "FastTicc.Props.Compose", "FastTicc.Props.C03", "FastTicc.Props.C11", "FastTicc.Props.C18", "FastTicc.Props.C02matrix", "FastTicc.Props.C02opt", "FastTicc.Props.AdmmSolve", "FastTicc.Props.C02conv"]
 LEAN_HELPERS = ["FastTicc.Proofs.Admm", "FastTicc.Proofs.Compose", "FastTicc.Proofs.AdmmMatrix", "FastTicc.Proofs.LogDet"]
 RULE = ("(a) step functions (soft threshold, lambda sum, Z update, U update, stopping rule) on dyadic inputs for all (N,W) "
         "with NW<=8 (thorough: <=24), scalar and matrix lambda, rho in {1/8..8}, vs the model at Rat; X update against its "
